@@ -31,7 +31,7 @@ def f64_bits(x):
 NUM_POOL = ["u0", "u1", "u2", "u3", "u10", "i-1", "i-2", "u42", "u9007199254740993", "u18446744073709551615",
             "i-9223372036854775808", f64_bits(1.5), f64_bits(-0.5), f64_bits(1.0), f64_bits(2.0), f64_bits(0.1),
             f64_bits(1e308), f64_bits(1.7e308), f64_bits(5e-324), f64_bits(-0.0), f64_bits(0.7100000000000002), f64_bits(0.71)]
-STR_POOL = ["", "a", "b", "foo", "bar", "é", "😀x", "a b", "10", "1.5", "true", "[1]", "abc", "ab", "zzz", "A"]
+STR_POOL = ["", "a", "b", "foo", "bar", "é", "😀x", "a b", "10", "1.5", "true", "[1]", "abc", "ab", "zzz", "A", " ", "\t\n", "\u00a0", "a\"b\\c", "{}", "null", "0", "false"]
 
 
 def rand_scalar(rng):
@@ -311,9 +311,11 @@ def near_miss(rng, toks):
     toks = list(toks)
     if not toks:
         return [rng.choice(ALL_TOKS)]
-    op = rng.randrange(5)
+    op = rng.randrange(6)
     i = rng.randrange(len(toks))
-    if op == 0:
+    if op == 5:
+        toks.insert(i, rng.choice(ODD_WS))
+    elif op == 0:
         del toks[i]
     elif op == 1:
         toks.insert(i, rng.choice(ALL_TOKS))
@@ -332,6 +334,9 @@ def token_soup(rng):
 
 
 CHARS = list("ab_0123456789-.*[]?|&!<>=@(){},:\"'`\\ \n\t\r") + ["é", "😀", "\u0001", "²", "٣", " ", "u", "d", "8", "f", "e", "+"]
+# whitespace-like characters that are NOT JMESPath whitespace (only space, tab, CR, LF are)
+ODD_WS = ["\x0c", "\x0b", "\u00a0", "\u2028", "\u0085", "\u200b", "\u3000", "\x1f"]
+CHARS += ODD_WS
 
 
 def char_soup(rng):
@@ -426,3 +431,34 @@ def path_expr(rng, doc, wrap=True):
     if r < 0.9:
         return rng.choice(fns) % base
     return "[%s, %s]" % (base, rng.choice(fns) % base)
+
+
+def near_pair(rng, depth=3):
+    """two typed values that are equal, differ in exactly one token (a number, a string, or a member NAME), or are unrelated"""
+    a = rand_doc(rng, depth)
+    r = rng.random()
+    if r < 0.3:
+        return a, a
+    if r < 0.8:
+        toks = a.split(" ")
+        idx = [i for i, t in enumerate(toks) if t[0] in "uids"]
+        if idx:
+            i = rng.choice(idx)
+            if toks[i][0] == "s":
+                toks[i] = enc_str(rng.choice(["a", "b", "", "zz", "id", "uid"]))
+            else:
+                toks[i] = rng.choice(NUM_POOL)
+            b = " ".join(toks)
+            # keep objects well formed (sorted, duplicate-free keys): re-encode through the parser
+            try:
+                import enc as _E
+                b = _E.dump(_E.parse(b))
+            except Exception:
+                b = a
+            return a, b
+    return a, rand_doc(rng, depth)
+
+
+CMP_EXPRS = ["[0] == [1]", "[0] != [1]", "@[0] == @[1] || `\"ne\"`", "[?@ == `1`]", "[[0] == [1], [1] == [0], [0] != [1]]",
+             "[0] < [1]", "[0] >= [1]", "[?[0] == [1]]", "[*] | [0] == [1]", "{e: [0] == [1], n: [0] != [1]}", "!([0] == [1])",
+             "([0] == [1]) && `true`", "[0].a == [1].a", "[0][0] == [1][0]", "[0].* == [1].*", "[0][] == [1][]"]
